@@ -562,6 +562,18 @@ class BaseCurve(Intface_BaseCurve):
         if oldctrlpoints is None and oldweights is None:
             self.knotvector = newknotvector
             return
+        oldknotvector = self.knotvector
+        try:
+            self.__apply(newknotvector, matrix, oldctrlpoints, oldweights)
+        except Exception:  # leave the curve as it was
+            self.ctrlpoints = None
+            self.weights = None
+            self.knotvector = oldknotvector
+            self.ctrlpoints = oldctrlpoints
+            self.weights = oldweights
+            raise
+
+    def __apply(self, newknotvector, matrix, oldctrlpoints, oldweights):
         self.ctrlpoints = None
         self.weights = None
         self.knotvector = newknotvector
